@@ -59,6 +59,19 @@ CHECKS["C11"] = dict(level="exploration", design="5/C11",
    text="1.28 million programs in the quick tier: all statement trees over blocks, if/else, counter loops (0, 1, 3 iterations), immediately applied function bodies with numbered trace points, stop, volgende, antwoord, declarations and empty blocks in every position (top level and inside a function), every early exit in every expression context, and every loop-body template iterated 0..70 000 times before a probe; trace, value and error must equal the reference interpreter's, and the abstract stack machine of each program (44 million states) must have no stack-growing cycle.",
    note="trusted: refint control-flow rules; bcmc stack-effect table; known finding KF-C11-01 (early exit with pending operands) is matched by a structural predicate on the program, any other growing cycle is a violation")
 
+CHECKS["C12"] = dict(level="exploration", design="5/C12",
+   technique="bounded-exhaustive enumeration of call expressions in every expression context over a prelude of functions (marker function makes evaluation order observable), generated parameter/local/pending-operand shapes, nested-function families and directed recursion ladders, compared with the reference interpreter / closed forms",
+   text="2.2 million programs in the quick tier: every expression of <= 6 nodes over calls of 8 functions (0-2 parameters, 0-2 locals, accumulating recursion, function-taking and function-returning functions) in operand, argument, element, condition and initialiser positions; 400 generated shapes of 0-4 parameters x 0-4 locals x pending operands, called from the top level and from inside another activation; functions nested in functions with and without colliding globals; self and mutual recursion with 0-2 pending operands to depth 20 000 and across the 65 535-slot limit (beyond it an error is required, never a wrong value).",
+   note="trusted: refint call semantics; closed-form expectations of the recursion ladder (cross-checked against the model up to depth 5 000); U6 arity mismatch excluded")
+CHECKS["C13"] = dict(level="exploration", design="5/C13",
+   technique="exhaustive enumeration of all operation sequences up to depth d over an 80-operation menu on three names (declare, alias, nest, boundary reads, writes, lengte, pass-to-writer) and a complete index sweep (every length 0..6 x every index -(len+2)..(len+2) x get/set/ill-typed set, every character-width mix, every value type as index and stored value), each rendered as a program and compared with the reference interpreter",
+   text="522 000 programs in the quick tier (all 80^3 operation sequences + the sweep); after every step the contents and length of every name are dumped through every alias, so a change made through one name must be seen through all aliases, indices count code points, and a failed access leaves the sequence unchanged.",
+   note="trusted: refint sequence semantics; U8 (aliased or non-character string replacement) excluded and counted")
+CHECKS["C14"] = dict(level="exploration", design="5/C14",
+   technique="complete tables of builtin x argument value over a 70-value alphabet covering every type and numeric/text boundary, all 12^2 / 12^3 argument tuples for 2 and 3 arguments, integer-lattice and float round trips, and all print format strings of <= 4 pieces x argument tuples, compared with reference builtins",
+   text="80 000 calls in the quick tier: every builtin on every alphabet value directly and through a variable (result type and value printed), idempotence of conversions, arity 0/2/3 tables, int(string(i)) / string(i) / int(float(i)) for all 370 lattice integers, float round trips, print with all 781 format strings of <= 4 pieces over {{}, {, }, a, space} x 76 argument tuples and with a first argument of every type.",
+   note="trusted: reference builtins in refint.rs; U11 (non-canonical number spellings, int of NaN/inf) not compared")
+
 NOT_YET = {}
 props = [json.loads(l) for l in open("/verif/properties.jsonl")]
 checks = []
